@@ -65,7 +65,8 @@ def rel(a, b):
 
 
 GRID_CFG = {
-    "quick": [("octa", [{}, {"segments": [1], "include_boundary_dofs": True}, {"segments": [1]}]),
+    "quick": [("octa", [{}, {"segments": [1], "include_boundary_dofs": True}, {"segments": [1]},
+                        {"swapped_normals": [1]}]),
               ("screen22", [{"include_boundary_dofs": True}, {},
                             {"segments": [1], "include_boundary_dofs": True, "truncate_at_segment_edge": False}]),
               ("tet", [{}, {"segments": [1, 2], "include_boundary_dofs": True}])],
